@@ -101,7 +101,7 @@ CHECKS["C09"] = dict(
 CHECKS["C16"] = dict(
   technique="symbolic execution of go/ssa with SMT (z3, linear integer arithmetic): precision-many symbolic decimal digits and sign through the real Decimal String/SetString with math/big modelled as mathematical integers",
   text="Bounded symbolic model checking of asetypes.NewDecimal, NewDecimalString, sanity, String, SetString, Cmp. For selected (precision, scale) pairs the magnitude is given by precision-many symbolic digits and a symbolic sign: String() must equal the exact decimal expansion computed from the digits by the harness (optional minus, no leading zeros, point, no trailing zeros, one digit on each side) and parse back to a Cmp-equal decimal. Numerals with symbolic digits, optional sign, point and surrounding spaces: accepted exactly when the significant integer digits fit precision-scale and the significant fraction digits fit the scale, then equal to the written number, otherwise an error. NewDecimal over symbolic precision/scale in -5..60: accepted for 1<=p<=38, 0<=s<=p, rejected for p>38, p<0, s<0, s>p.",
-  note="Trusted: symgo executor, its math/big.Int model (Int terms, digit-preserving SetString/Abs/String), strings and fmt.Sprintf(%0Ns) models, z3. Bounds: quick (p,s) in {(1,0),(1,1),(3,1),(5,5),(6,2)} and numerals of <=4+4 digits at (5,2),(4,4); thorough adds (18,4),(38,0),(38,19),(38,38) and a 28+10 digit numeral. Outside: the other (precision, scale) pairs, exponent syntax, precision 0.",
+  note="Trusted: symgo executor, its math/big.Int model (Int terms, digit-preserving SetString/Abs/String), strings and fmt.Sprintf(%0Ns) models, z3. Bounds: quick (p,s) in {(1,0),(1,1),(3,1),(5,5),(6,2)} and numerals of <=4+4 digits at (5,2),(4,4); thorough adds (9,3),(8,0),(7,7) and a 5+3 digit numeral at (8,3). Outside: the other (precision, scale) pairs - in particular precisions above 9, where the solver does not finish within the time limit -, exponent syntax, precision 0.",
   ref="DESIGN.md §4 C16")
 
 CHECKS["C04"] = dict(
@@ -116,6 +116,7 @@ CHECKS["C05"] = dict(
   ref="DESIGN.md §4 C05")
 
 NOT_APPLICABLE = {
+ "C17": "not applicable to solver-based checking of the real code here: both DSN forms go through dsn.TagToField/setValue, which walk arbitrary struct types with reflect (runtime type graph, tag lookup, Value.Set*), and the URI form through net/url parsing and escaping; neither can be encoded by our go/ssa executor within reach, and stubbing them by contract would make the round trip true by assumption (DESIGN.md section 5)",
 }
 
 props = [json.loads(l)["id"] for l in open("/verif/properties.jsonl")]
